@@ -411,7 +411,7 @@ var ghostBuiltins = map[string]bool{
 	"fresh": true, "ncalls": true, "callarg": true, "callret": true, "firstret": true, "forall": true, "exists": true,
 	"pendingErr": true, "pendingFailed": true, "outCount": true, "outFirst": true, "outLast": true, "ctxDone": true, "allocated": true, "sameSlice": true, "sameFloat": true, "sameVal": true, "sameBase": true, "freshBase": true, "present": true,
 	"deferActive": true, "deferVal": true, "deferObj": true, "dynret": true, "mathInt": true, "fitsInt64": true, "fitsInt32": true,
-	"strLen": true, "boolToInt": true, "uninterp": true, "loopEntry": true, "isNaN": true, "isInf": true,
+	"strLen": true, "boolToInt": true, "uninterp": true, "loopEntry": true, "allocatedBeforeLoop": true, "isNaN": true, "isInf": true,
 	"toFloat": true, "exactCmpIF": true, "errIsCtx": true, "roundHalfAway": true, "truncF": true, "f2iInRange64": true, "f2iTrunc": true,
 }
 
@@ -728,6 +728,19 @@ func (env *specEnv) ghost(name string, targs []ast.Expr, e *ast.CallExpr) SV {
 			c.vars = env.ovars
 		}
 		return c.eval(e.Args[0])
+	case "allocatedBeforeLoop":
+		// the object (or backing array) x refers to now existed when the loop was entered
+		if env.loopPre == nil {
+			env.fail("allocatedBeforeLoop() is only available in loop clauses")
+		}
+		r := x.asTerm(env.eval(e.Args[0]), env.typeOf(e.Args[0]))
+		switch r.Sort {
+		case SSlice:
+			r = app(SInt, "sbase", r)
+		case SAny:
+			r = app(SInt, "anyref", r)
+		}
+		return app(SBool, "<", r, x.get(env.loopPre, x.allocKey()))
 	case "loopEntry":
 		if env.loopPre == nil {
 			env.fail("loopEntry() is only available in loop clauses")
